@@ -676,6 +676,9 @@ func executePlannedSelection(eCtx *executionContext, sp *selectionPlan, source i
 		if !ok {
 			continue
 		}
+		if path == nil && eCtx.plan != nil && eCtx.plan.isMutation {
+			resolved = dethunkValueDepthFirst(resolved)
+		}
 		finalResults[fp.responseKey] = resolved
 	}
 	return finalResults
